@@ -60,6 +60,7 @@ import atexit
 import fcntl
 import io
 import json
+import os
 import termios
 import threading
 import time
@@ -279,7 +280,9 @@ class _ProtocolShim(object):
 
 
 class _Env(object):
-    def __init__(self):
+    def __init__(self, storage=None):
+        self.storage = storage
+        self.tmpdir = None
         import Pyro5.api  # noqa
         import Pyro5.server
         import Pyro5.nameserver
@@ -322,7 +325,13 @@ class _Env(object):
         old = config.SERVERTYPE
         config.SERVERTYPE = "thread"
         try:
-            self.nsd = NSD("127.0.0.1", 0)
+            if storage == "sql":
+                # the same name server with its sqlite back-end (what `pyro5-ns -s sql:<file>` runs)
+                import tempfile
+                self.tmpdir = tempfile.mkdtemp(prefix="c20ns_", dir="/var/tmp")
+                self.nsd = NSD("127.0.0.1", 0, storage="sql:" + os.path.join(self.tmpdir, "ns.sqlite"))
+            else:
+                self.nsd = NSD("127.0.0.1", 0)
         finally:
             config.SERVERTYPE = old
         self.ns_port = self.nsd.sock.getsockname()[1]
@@ -535,15 +544,20 @@ class _Env(object):
         except Exception:
             pass
         self._server.protocol = self._real_protocol
+        if self.tmpdir:
+            import shutil
+            shutil.rmtree(self.tmpdir, ignore_errors=True)
 
 
 _ENV = None
 
 
-def _env():
+def _env(storage=None):
     global _ENV
+    if _ENV is not None and not _ENV.closed and _ENV.storage != storage:
+        _ENV.shutdown()
     if _ENV is None or _ENV.closed:
-        _ENV = _Env()
+        _ENV = _Env(storage)
         atexit.register(_shutdown_env)
     return _ENV
 
@@ -924,7 +938,7 @@ def _index_names(body):
 
 
 def run_case(case):
-    env = _env()
+    env = _env(case.get("ns_storage"))
     out = []
     for i, pre in enumerate(case.get("prelude") or []):
         # earlier requests of the same gateway process (each judged on its own as well)
@@ -1164,7 +1178,7 @@ def _labels(case):
 
 
 def SHARDS(tier):
-    return [{} for _ in range(16)]
+    return [{"ns_storage": "sql" if i % 4 == 3 else None} for i in range(16)]
 
 
 def run(ctx):
@@ -1172,14 +1186,24 @@ def run(ctx):
     idx, cnt = ctx.shard.get("index", 0), ctx.shard.get("count", 1)
     # diagnostic only (never a verdict): if a shard is still running long after its budget, show where every thread is
     faulthandler.dump_traceback_later(BUDGET_S[ctx.tier] + 90, exit=False)
-    _env()
+    storage = ctx.shard.get("ns_storage")
+    _env(storage)
+    tagcase = (lambda c: dict(c, ns_storage=storage)) if storage else (lambda c: c)
+    extra = ["ns:sqlite"] if storage else []
     try:
         n = 0
         for case in sweep_cases(idx, cnt):
-            ctx.observe(case, run_case(case), _nontrivial(case), _labels(case) + ["sweep"])
+            case = tagcase(case)
+            ctx.observe(case, run_case(case), _nontrivial(case), _labels(case) + ["sweep"] + extra)
             n += 1
+        if storage:
+            # the index page against every pattern (the listing is computed by the name server's back-end)
+            for regex in PATTERNS:
+                for gk, hdr in ((None, None), (b"secret", None), (b"secret", "secret")):
+                    case = tagcase({"method": "GET", "path": "/pyro/", "query": "", "hdr_key": hdr, "options": None, "corr": None, "gateway_key": gk, "ns_regex": regex})
+                    ctx.observe(case, run_case(case), True, ["index-sweep"] + extra)
         ctx.notes["sweep_cases"] = n
-        ctx.search(case_strategy(), run_case, ctx.n(1200, 30000), nontrivial=_nontrivial, labels=_labels, name="gateway", max_rounds=10)
+        ctx.search(case_strategy().map(tagcase), run_case, ctx.n(1200, 30000), nontrivial=_nontrivial, labels=lambda c: _labels(c) + extra, name="gateway", max_rounds=10)
     finally:
         _shutdown_env()
         faulthandler.cancel_dump_traceback_later()
